@@ -25,6 +25,19 @@ func init() {
 		pr.Explanation += " " + expl
 	}
 	extend("C01", "(R1.7) every replica base handed to CalculateBatchReplicas / ParseIntegerAsPercentageIfPossible is the workload's spec size, never an observed status count (the workload controller evaluates percentages against spec.replicas); (R1.8) the partition-style Deployment Initialize writes a strategy whose partition is the constant zero on every path — a new release never inherits the partition of an earlier one.", extraC01)
+	imp := func(id, from string, mapping map[string]string, expl string) {
+		extend(id, expl, func(c *Ctx) {
+			t := NewCtx(c.Prog, from, c.Tier, c.OutDir)
+			Registry[from].Run(t)
+			c.Import(t, mapping, " (= "+from+"'s rule, a necessary condition of this property too)")
+		})
+	}
+	imp("C03", "C13", map[string]string{"R13.3": "R3.3g"}, "(R3.3g = C13 R13.3) the Gateway provider's desired/current comparison is not vacuous: the backendRef helpers never alias or edit in place the route object that was read — otherwise a changed weight is 'verified' without ever being written.")
+	imp("C03", "C14", map[string]string{"R14.1": "R3.6"}, "(R3.6 = C14 R14.1) every built-in ingress class script clears each key it may set before deciding the current step's values, so the weight / match of an earlier step cannot survive into a step that does not set it.")
+	imp("C06", "C05", map[string]string{"R5.2": "R6.6"}, "(R6.6 = C05 R5.2) a multi-write teardown is repaired after a crash or fault between its writes: the paired undo (RestoreHPA, canary Delete) is not guarded by a marker that an earlier write of the same pass already flipped, and is passed on every success return.")
+	imp("C07", "C01", map[string]string{"R1.5": "R7.6"}, "(R7.6 = C01 R1.5) target and readiness arithmetic round the same way (roundUp=true at every replica percentage, including the no-op guard of UpgradeBatch): otherwise the update target falls one short of what readiness demands and the batch never becomes ready.")
+	extend("C04", "(R4.7) inside the route-withdrawal chain (everything reachable from Manager.RestoreGateway, FinalisingTrafficRouting, RemoveCanaryService and the providers' Finalise) no error of a call that can fail at the API server is lost: a swallowed error reads as 'routes withdrawn' and the canary Service is removed while routes still point at it.", extraC04)
+	extend("C14", "(R14.7) no API error of the Ingress provider is lost (a swallowed read error in Finalise reads as 'canary Ingress already gone').", extraC14)
 	extend("C05", "(R5.1d) what Initialize saves is merged with what was saved before: the value serialised into the original-setting / deployment-strategy annotation depends on the previously saved annotation, so re-initialising a held-back workload cannot overwrite the user's settings with the hold-back values.", extraC05)
 	extend("C07", "(R7.5) a plan change is consumed: every success return of handleRolloutPlanChanged has stored the new rollout hash into the status, otherwise isRolloutPlanChanged stays true and every reconcile re-enters the handler.", extraC07)
 	extend("C08", "(R8.6) in the admission closure no map is built and filled but never attached or read (a hold-back value written into an orphan map never reaches the object).", extraC08)
@@ -824,4 +837,70 @@ func extraC13(c *Ctx) {
 	if n == 0 {
 		c.Ob("R13.1b", "buildCanaryHeaderHttpRoutes#combined-match", fn.Pos(), false, "a match combined from the rule's own matches", "anchor not found")
 	}
+}
+
+// ---------------------------------------------------------------- C04 / C14: error discipline of the traffic teardown
+
+func apiReaching(p *Program) (map[*ssa.Function]bool, func(ssa.CallInstruction) bool) {
+	api := map[*ssa.Function]bool{}
+	isClient := func(ci ssa.CallInstruction) bool {
+		return strings.Contains(CalleeName(ci.Common()), "controller-runtime/pkg/client.")
+	}
+	for changed := true; changed; {
+		changed = false
+		for _, fn := range p.RepoFuncs() {
+			if api[fn] {
+				continue
+			}
+			for _, ci := range AllCalls(fn) {
+				hit := isClient(ci)
+				for _, cal := range p.Callees(ci) {
+					if api[cal] {
+						hit = true
+					}
+				}
+				if hit {
+					api[fn] = true
+					changed = true
+					break
+				}
+			}
+		}
+	}
+	return api, func(ci ssa.CallInstruction) bool {
+		if isClient(ci) {
+			return true
+		}
+		for _, cal := range p.Callees(ci) {
+			if api[cal] {
+				return true
+			}
+		}
+		return false
+	}
+}
+
+func extraC04(c *Ctx) {
+	p := c.Prog
+	c.Rule("R4.7", "no API error is lost inside the route-withdrawal chain", 25)
+	var roots []*ssa.Function
+	for _, n := range []string{"pkg/trafficrouting.Manager.RestoreGateway", "pkg/trafficrouting.Manager.FinalisingTrafficRouting", "pkg/trafficrouting.Manager.RemoveCanaryService", "pkg/trafficrouting.Manager.RestoreStableService"} {
+		if f := p.Func(n); f != nil {
+			roots = append(roots, f)
+		} else {
+			c.Unresolved("R4.7", n)
+		}
+	}
+	closure := p.ReachableFrom(roots...)
+	_, sel := apiReaching(p)
+	checkErrorDisciplineF(c, "R4.7", func(fn *ssa.Function) bool { return closure[fn] }, sel)
+}
+
+func extraC14(c *Ctx) {
+	p := c.Prog
+	c.Rule("R14.7", "no API error of the Ingress provider is lost", 6)
+	_, sel := apiReaching(p)
+	checkErrorDisciplineF(c, "R14.7", func(fn *ssa.Function) bool {
+		return strings.HasPrefix(FuncName(fn), "pkg/trafficrouting/network/ingress.")
+	}, sel)
 }
